@@ -77,6 +77,22 @@ META = {
         "note": "See assumptions in the evidence file: marker revisions, non-canonical pod names and identical-data name collisions are not judged.",
         "technique": "stateful property-based testing (rapid) with per-reconcile write classification against a membership model",
     },
+    "C11": {
+        "text": "The flag (deletion timestamp or pause) is raised at a generated point of a generated history - mid scale-in, mid rolling update, with orphans "
+                "waiting - and every later reconcile that sees it is checked for forbidden writes; for pauses a cloned never-paused twin run gives the "
+                "reference result that the resumed run must converge to.",
+        "design_ref": "DESIGN.md section 3, C11",
+        "note": "Resume equivalence is compared on the spec-determined projection only (revisions of pods below the partition and currentRevision are history-dependent by design).",
+        "technique": "stateful property-based testing (rapid): write monitor + differential twin run (paused vs never paused)",
+    },
+    "C13": {
+        "text": "Revision deletions of every reconcile over generated revision populations (own, orphan, adopted-after-upgrade, foreign) are compared with a "
+                "reference model of 'the oldest unused own revisions beyond the limit'. Found and repaired trimming of revisions the set does not control "
+                "(and, through C02, the double listing).",
+        "design_ref": "DESIGN.md section 3, C13",
+        "note": "Exact equality of the deleted set is asserted for fault-free reconciles; with faults only 'never more than expected, never a live or foreign one'.",
+        "technique": "property-based testing (rapid) against a reference model of history trimming",
+    },
 }
 
 _pending = "check not built yet in this round of the build; planned per DESIGN.md section 3 (generated-input search applies)"
